@@ -261,7 +261,7 @@ Section Cert.
   Lemma funcs_okb_none : funcs_okb = true -> forall op, find_func (m_funcs m) op = None -> find_func (m_funcs m') op = None.
   Proof. intros H op. apply find_func_ids. apply funcs_okb_ids. exact H. Qed.
 
-  (* ------------------------------------------------------------ the copy map (il_cl_*) *)
+  (* ------------------------------------------------------------ the copy map (fields il_cl_formal .. il_cl_inj) *)
   Definition clformal_okb : bool :=
     forallb (fun x => oo_eqb (cl x) (alookup (bind_formals xs (n_ins cc)) x)) xs.
   Lemma clformal_okb_sound : clformal_okb = true -> forall x, In x xs -> cl x = alookup (bind_formals xs (n_ins cc)) x.
@@ -592,6 +592,46 @@ Module InlineCertExamples.
     | None => false
     end = true.
   Proof. vm_compute. reflexivity. Qed.
+
+  (* K(a, b, c) with a default for gamma: an inner call F(a); a Loop with a LIST of graphs (4 contains an If whose
+     branches 6, 7 are nested one level deeper; 7 has an initializer and uses the formal c; 4 returns the formal a; 5 returns
+     an outer value of the body); Scale with a reference to the defaulted attribute and a reference without any binding
+     (dropped), and an explicit None input.  Returns (16, 15, 16).
+     main calls K twice (None in the middle / omitted trailing argument, an initializer as argument, default overridden).
+     All five calls are inlined one after the other — K, K, the two copies of F(a), then F inside the body of K —, each step
+     checked against the model and the counters the previous step produced. *)
+  Definition OP_K := OP 75.
+  Definition S_gs : str := [103].  Definition S_gamma : str := [104].
+  Definition bodyK : graph :=
+    mkGraph [10; 11; 12] []
+            [mkNode OP_F [] [Some 10] [13];
+             mkNode OP_Loop [(S_gs, AGraphs [4; 5])] [Some 13; Some 11] [14; 15];
+             mkNode OP_Scale [(S_alpha, ARef TY_FLOAT S_gamma); (S_beta, ARef TY_INT S_beta)] [Some 14; None; Some 12] [16]]
+            [16; 15; 16].
+  Definition ex3 : model :=
+    mkModel (mkGraph [1; 2] [(3, t0)]
+                     [mkNode OP_K [] [Some 1; None; Some 3] [5; 6; 7];
+                      mkNode OP_K [(S_gamma, AData TY_FLOAT [9%Z])] [Some 5; Some 6] [8; 9; 60];
+                      mkNode OP_Add [] [Some 7; Some 60] [61]]
+                     [8; 61; 5])
+            [(4, mkGraph [40] [] [mkNode OP_If [(S_else, AGraph 6); (S_then, AGraph 7)] [Some 40] [41]] [41; 10]);
+             (5, mkGraph [] [] [] [13]);
+             (6, mkGraph [] [] [mkNode OP_Neg [] [Some 40] [42]] [42]);
+             (7, mkGraph [] [(43, t0)] [mkNode OP_Add [] [Some 43; Some 12] [44]] [44])]
+            [mkFunc OP_F (mkGraph [20] [] [mkNode OP_Neg [] [Some 20] [21]] [21]) [];
+             mkFunc OP_K bodyK [(S_gamma, AData TY_FLOAT [3%Z])]].
+  Definition chain_step (acc : option (model * N * N) * bool) (k : vid) : option (model * N * N) * bool :=
+    match acc with
+    | (Some (m, fv, fg), b) =>
+      match inline_at_raw 8 m k fv fg with
+      | Some st => (Some (is_m st, is_fv st, is_fg st), b && inline_certb m st fv)
+      | None => (None, false)
+      end
+    | (None, _) => (None, false)
+    end.
+  Example inline_cert_ex3_chain :
+    wfb ex3 = true /\ snd (fold_left chain_step [5; 8; 100; 109; 13] (Some (ex3, 100, 50), true)) = true.
+  Proof. vm_compute. split; reflexivity. Qed.
 
   (* the checker is not vacuous the other way either: a step whose replacement pairs are dropped (uses of the call's
      outputs left dangling) and a step with a corrupted copy are rejected *)
